@@ -76,16 +76,20 @@ IDX_ASSUME = [
     'about 130 dependency functions (AST accessors, symbol-map constructors/setters, Diagnostic::new, ...) have signature-only assumed contracts harvested mechanically: assumed not to panic and not to touch the scope/file stacks',
     'termination of the recursion over the syntax tree is not proved (no measure on the external rowan/AST types; #[verifier::exec_allows_no_decreases_clause])',
     'R13: Option::and_then(closure capturing &mut ctx) is inlined to its defining match in the verified text (1 site in BangOperator::index)',
-    'external_body with ASSUMED frame contract (iterator adapters / closures capturing ctx are unsupported): Value, SimpleValue, ArgValueList, resolve_class_ref_as_class/_multiclass, check_template_args, the common:: helpers of bang_operator.rs, Scopes::current_*_id / find_local / add_variable / find_variable_in_current_scope, Scope::add_variable / find_variable, IndexCtx::new / next_anonymous_def_name',
+    'external_body with ASSUMED frame contract (iterator adapters / closures capturing ctx): ArgValueList::index, resolve_class_ref_as_class/_multiclass, the common:: helpers of bang_operator.rs, Scopes::current_*_id / add_variable / find_variable_in_current_scope, IndexCtx::new / next_anonymous_def_name; R14 helpers outlined from check_template_args (4), Scopes::find_local (1), Value::index (1), SimpleValue::index (4), each listed under dropped_from_unit',
+    'the symbol-map lookups (Record::find_field / find_template_arg, Multiclass::find_template_arg, SymbolMap::find_def / record / multiclass) are functions of their arguments (uninterpreted sp_*); EcoString obeys the HashMap key model and == compares the text; id_arena::Id<T> is accepted in recursive positions (it holds a PhantomData only)',
     'tree-shape assumptions on the parser output: Def::record_body, Defm::parent_class_list, Defset::statement_list, Foreach::body are always Some (the grammar functions build these nodes unconditionally)',
     'R4 for-loop desugaring, R5 tracing!/format! removal, R11 binder renaming in the verified text',
 ]
 prop('C05', units=['idx'], level='proof', relevant=r'^unit::index::',
-     explanation=('PARTIAL (scope discipline only). Verus proves, for the real text of every Indexable::index impl that is within reach and for the helpers they call, over '
-                  'every exit including `?`: the scope stack (as a sequence of frame kinds) and the file stack are exactly restored, i.e. class, def, defm, defset, '
-                  'foreach and multiclass pop what they pushed, an included file is popped again. This is the mechanism behind "a name used after the construct that '
-                  'declared it has ended does not resolve to it" and "in the right file". Not decided: that a use resolves to THE declaring identifier (lookup order, '
-                  'add_reference at each use). The three bang-operator scopes (!filter/!foldl/!foreach) are covered: BangOperator::index is verified.'),
+     explanation=('PARTIAL. Verus proves on the real indexer text: (a) scope discipline - for every Indexable::index impl within reach and the helpers they call, over every exit including `?`, '
+                  'the scope stack (as a sequence of frame kinds) and the file stack are exactly restored (class, def, defm, defset, foreach, multiclass and the three bang-operator scopes pop what '
+                  'they pushed; an included file is popped again): the mechanism behind "a name used after the construct that declared it has ended does not resolve to it" and "in the right file"; '
+                  '(b) lookup order - Scopes::find_local, Scope::find_variable and IndexCtx::resolve_id return exactly the reference lookup written from the property (innermost scope first; in a scope '
+                  'its declared variables, then the foreach iterator, then for a record scope own and inherited fields, then template arguments, for a multiclass scope template arguments; global defs '
+                  'last), and Scope::add_variable makes a declared name findable; (c) use site - in SimpleValue::index the reference recorded for an identifier is the symbol that lookup yields, at the '
+                  'identifier token\'s own range in the file on top of the include stack. Not decided: class references (global class table), field suffixes (Type::find_field), that declarations are '
+                  'entered into the scope they belong to (Scopes::add_variable), the position index behind go-to-definition / find-references (symbol-map internals).'),
      assumptions=IDX_ASSUME)
 prop('C03', units=['idx'], level='proof', relevant=r'^unit::index::',
      explanation=('PARTIAL (three mechanisms of the indexer). Verus proves on the real indexer text that the precondition of every panic site holds on every path: '
